@@ -228,6 +228,12 @@ structure SSys where
   da1First : Bool := false
   /-- `Resume` clears `vx.suspended` (a fact of the source, `Gen.Conc.skeleton_Resume`) -/
   resumeClears : Bool := true
+  /-- `Parser.WaitClose` discards what the parser emits while it waits (a fact of the source,
+  `Gen.Conc.shape_Parser_WaitClose`; `false` = the bare `<-p.closed` of before the F13 repair) -/
+  waitDrains : Bool := true
+  /-- `PostEventBlocking` has the `<-vx.chQuit` arm (a fact of the source,
+  `Gen.Conc.shape_PostEventBlocking`; `false` = the bare send of before the F53 repair) -/
+  postQuitArm : Bool := true
   deriving DecidableEq, Repr
 
 inductive SLabel
@@ -310,7 +316,7 @@ def iact (s : SSys) (v : IView) : IAct → Option (SSys × IView)
       | _ => none
   | .quit =>
       match v.ipc with
-      | .posting (k + 1) => if s.quitCloses ≥ 1 then some (s, { v with ipc := .posting k }) else none
+      | .posting (k + 1) => if s.postQuitArm && s.quitCloses ≥ 1 then some (s, { v with ipc := .posting k }) else none
       | _ => none
   | .panic =>
       match v.ipc with
@@ -368,7 +374,7 @@ def snext (s : SSys) : SLabel → Option SSys
       | none => none
       | some c =>
         match c.pc, s.seqs with
-        | .waitClosed, _ :: r => some { s with seqs := r }
+        | .waitClosed, _ :: r => if s.waitDrains then some { s with seqs := r } else none
         | _, _ => none
 
 def srun : SSys → List SLabel → Option SSys
